@@ -34,6 +34,9 @@ REPLAYS = os.path.join(VERIF, "replays")
 # the repository under test; KV_REPO lets a scratch copy be checked without touching /repo
 REPO = os.environ.get("KV_REPO", "/repo")
 REPO_LINK = os.path.join(BUILD, "repolink")
+if REPO != "/repo":
+    # a scratch tree is being checked: never overwrite the committed evidence of /repo
+    EVIDENCE = os.path.join(BUILD, "evidence_scratch")
 
 
 def link_repo():
